@@ -432,7 +432,7 @@ theorem parse_frames_eq_model (p : Bytes) :
   simp only []
   refine (loop_finish _).trans ?_
   refine (while_eq_model _ _ ?_ ?_ _ _ _ (Nat.le_refl _)).trans ?_
-  · intro acc q; rfl
+  · intro acc q; cases q <;> simp
   · intro acc q hq
     cases q with
     | nil => exact absurd rfl hq
